@@ -191,12 +191,27 @@ def r_bundle(ck: Checker) -> None:
     calls = resolved_calls(ck.prg, init, f"ngo.{B}.init_complex")
     ck.need(len(calls) == 1, "__init__ dispatches to init_complex")
     par = parent(init, enclosing_stmt(init, calls[0]))
-    ck.need(isinstance(par, ast.If) and isinstance(par.test, ast.Name), "init_complex is chosen by a boolean flag")
-    flag = par.test.id  # type: ignore[union-attr]
-    assigns = [n for n in find_nodes(init.node, lambda n: isinstance(n, ast.Assign)) if unparse(n.targets[0]) == flag]  # type: ignore[attr-defined]
-    ck.need(len(assigns) >= 2, "flag is initialised and refined per symmetry")
-    first = unparse(assigns[0].value).replace(" ", "")  # type: ignore[attr-defined]
-    ck.add("counting needs a single symmetry", first == "len(symmetries)==1", init, assigns[0], f"flag initialised with `{first}`", "several groups in one bundle share variables; one count aggregate cannot express them")
+    ck.need(isinstance(par, ast.If) and calls[0] in list(ast.walk(ast.Module(body=par.body, type_ignores=[]))), "init_complex is chosen by a test")  # type: ignore[union-attr]
+    if isinstance(par.test, ast.Name):  # type: ignore[union-attr]
+        flag = par.test.id  # type: ignore[union-attr]
+        assigns = [n for n in find_nodes(init.node, lambda n: isinstance(n, ast.Assign)) if unparse(n.targets[0]) == flag]  # type: ignore[attr-defined]
+    else:
+        # the decision is written into the test itself
+        flag = "<test>"
+        assigns = [ast.Assign(targets=[ast.Name(flag, ast.Store())], value=par.test, lineno=par.lineno, col_offset=par.col_offset)]  # type: ignore[union-attr,list-item]
+    ck.need(len(assigns) >= 1, "flag is initialised and refined per symmetry")
+    one_re = r"len\((?P<a>\w+)\.nstrict_neq\)\+len\((?P=a)\.strict_neq\)==1|len\((?P<b>\w+)\.strict_neq\)\+len\((?P=b)\.nstrict_neq\)==1"
+    if len(assigns) == 1:
+        # the same decision as one expression: len(symmetries) == 1 and all(<one unequal position> for sym in symmetries)
+        v0 = assigns[0].value  # type: ignore[attr-defined]
+        conj = [unparse(x).replace(" ", "") for x in (v0.values if isinstance(v0, ast.BoolOp) and isinstance(v0.op, ast.And) else [v0])]
+        ck.add("counting needs a single symmetry", "len(symmetries)==1" in conj, init, assigns[0], f"flag is `{short(unparse(v0))}`", "several groups in one bundle share variables; one count aggregate cannot express them")
+        every = [c for c in conj if re.fullmatch(r"all\(\(?(?:bool\()?(?:%s)\)?\)?for(\w+)insymmetries\)\)?" % one_re, c)]
+        ck.add("counting needs exactly one unequal position", bool(every), init, assigns[0], f"`{short(unparse(v0))}`", "with two differing positions `k <= #count{X}` over one of them counts too few/many")
+        assigns = assigns[:1]
+    else:
+        first = unparse(assigns[0].value).replace(" ", "")  # type: ignore[attr-defined]
+        ck.add("counting needs a single symmetry", first == "len(symmetries)==1", init, assigns[0], f"flag initialised with `{first}`", "several groups in one bundle share variables; one count aggregate cannot express them")
     for a in assigns[1:]:
         v = a.value  # type: ignore[attr-defined]
         mono = isinstance(v, ast.BoolOp) and isinstance(v.op, ast.And) and unparse(v.values[0]) == flag
